@@ -506,7 +506,7 @@ def run_transport(case, api):
             asyncio.run(asyncio.wait_for(_drive_async(case, peer.port, peer, rec), WATCHDOG_S))
         rec["exc"] = None
     except (Inconclusive, asyncio.TimeoutError) as e:
-        rec["inconclusive"] = str(e)
+        rec["inconclusive"] = str(e) or "wall-clock watchdog"
     except Exception as e:  # noqa
         rec["exc"] = e
     finally:
@@ -795,3 +795,28 @@ def check_reset_case(case):
         if v is not None:
             return Violation("recovery-failed-after-connection-reset", "after the peer reset the connection (at host packet %d), recovery op %r misbehaved: %s" % (case["reset_after"], op["op"], v.detail)), info
     return None, info
+
+
+def fixed_transport_cases():
+    """A small deterministic set of feature combinations that every run exercises (both transports)."""
+    out = []
+    base = {"frags": [(b"hello", 0), (bytes(range(200)) * 40, 0.01), (b"x" * 3000, 0)], "reqs": [1, 24, 100000], "connect_timeout": 1.0, "read_timeout": 2.0,
+            "idle_timeout": 0.1, "tail": b"T" * 500, "rcvbuf": None, "reconnect": False, "big_write": 0, "write_timeout": 5.0, "peer_rcvbuf": None, "sndbuf": None,
+            "poll": False, "unread_inbound": False, "peer_reset": False, "peer_stall": 0}
+    variants = [
+        {},
+        {"poll": True},
+        {"read_timeout": None, "connect_timeout": 1.0},
+        {"read_timeout": None, "connect_timeout": None},
+        {"big_write": 100000, "sndbuf": 4096, "peer_rcvbuf": 4096},
+        {"big_write": 1048576, "sndbuf": 4096, "peer_rcvbuf": 4096, "unread_inbound": True},
+        {"big_write": 100000, "sndbuf": 4096, "peer_rcvbuf": 4096, "unread_inbound": True, "write_timeout": 2.0},
+        {"big_write": 100000, "sndbuf": 4096, "peer_rcvbuf": 4096, "peer_stall": 0.8},
+        {"peer_reset": True},
+        {"peer_reset": True, "big_write": 100000},
+        {"reconnect": True, "rcvbuf": 4096},
+    ]
+    for api in ("sync", "async"):
+        for v in variants:
+            out.append(dict(base, api=api, **v))
+    return out
